@@ -37,7 +37,7 @@ CFG = {
         "C15_tie_MultiLineString", "C15_tie_Polygon", "C15_tie_MultiPolygon", "C15_tie_GeometryCollection",
         "loops_eq_matchMembers", "removal_in_source",
         "C15_false_displaced_several", "dispRingSome_false", "dispPtsSome_false",
-        "C15_rne_rounding", "C15_float64_lift", "C15_float64_false", "C15_float64_true", "C15_float64_symm",
+        "C15_rne_rounding", "C15_float64_lift", "C15_float64_false", "C15_float64_true", "C15_float64_symm", "C15_float64_grid", "isDouble_sub_of_onGrid",
         "C15_model_eq_spec_blocks", "C15_greedy_iff_perfect_blocks", "C15_false_displaced_copy", "C15_sepRel_block", "C15_perturb_blocks", "C15_false_blocks",
         "C15_blockRel_iff", "C15_any_fit_matcher", "C15_firstFit_is_code", "C15_false_displaced_member_blocks", "C15_false_displaced_anywhere",
         "C15_any_fit_all_levels", "matchWith_eq_of_rows",
